@@ -623,6 +623,29 @@ impl Default for RunOpts {
 /// fresh OS thread (thread-locals of the code under test cannot leak between
 /// scenarios). A panic escaping `f` is a harness error (inconclusive), never a
 /// violation.
+/// Bijection on 0..n used as dispatch order by `run_parallel`.
+pub fn dispatch_index(k: u64, n: u64) -> u64 {
+    const HEAD: u64 = 512;
+    if n <= HEAD || k < HEAD {
+        return k;
+    }
+    let m = n - HEAD;
+    // a stride coprime to m
+    let mut p: u64 = 1_000_003;
+    while gcd(p, m) != 1 {
+        p += 2;
+    }
+    HEAD + (((k - HEAD) as u128 * p as u128) % m as u128) as u64
+}
+
+fn gcd(a: u64, b: u64) -> u64 {
+    if b == 0 {
+        a
+    } else {
+        gcd(b, a % b)
+    }
+}
+
 pub fn run_parallel<F>(ctx: &Ctx, n: u64, opts: RunOpts, f: F) -> Report
 where
     F: Fn(u64) -> ScenarioOut + Send + Sync + 'static,
@@ -632,22 +655,30 @@ where
     let report = Arc::new(Mutex::new(Report::default()));
     let stop = Arc::new(AtomicUsize::new(0));
     let t0 = Instant::now();
+    let quick = ctx.quick();
     let mut workers = vec![];
     for _ in 0..ctx.threads.max(1) {
         let f = f.clone();
         let next = next.clone();
         let report = report.clone();
         let stop = stop.clone();
-        let budget = opts.budget_s;
+        // quick tier: the budget is a safety net for slow machines, not a target (a normal quick run
+        // finishes well inside it); a generous net keeps a throttled machine from starving the
+        // required observations
+        let budget = if quick { opts.budget_s * 4.0 } else { opts.budget_s };
         let timeout = opts.scenario_timeout_s;
         workers.push(std::thread::spawn(move || loop {
             if stop.load(Ordering::Relaxed) != 0 {
                 break;
             }
-            let idx = next.fetch_add(1, Ordering::Relaxed);
-            if idx >= n {
+            let k = next.fetch_add(1, Ordering::Relaxed);
+            if k >= n {
                 break;
             }
+            // Dispatch order: the first indices in natural order (directed scenarios live there),
+            // the rest in a stride permutation, so that a run cut short by its time budget (slow
+            // machine) has sampled every family of scenarios, wherever it sits in the index range.
+            let idx = dispatch_index(k, n);
             if t0.elapsed().as_secs_f64() > budget {
                 report.lock().unwrap().budget_exhausted = true;
                 break;
